@@ -74,6 +74,16 @@ def check(case):
         if wi != len(want):
             w = want[wi]
             return f"record {wi} (offset {w[0]:#x}, {len(w[1])} bytes) not re-emitted byte for byte in order; got blocks {[(hex(a), len(b)) for a, b in got][:6]}"
+        if case.get("overlay"):
+            # the records are applied WHEN THE DIRECTIVE IS REACHED: on top of the blocks closed before it (here: they land inside the first block)
+            img = {}
+            for a, b in got:
+                for i, x in enumerate(b):
+                    img[a + i] = x
+            for off, payload in want:
+                for i, x in enumerate(payload):
+                    if img.get(off + i) != x:
+                        return f"the output does not hold the record's byte {x:#x} at {off + i:#x} (holds {img.get(off + i)}): records and earlier blocks are applied in the wrong order"
         if rest != own:
             return f"surrounding program output changed: {[(hex(a), b.hex()[:16]) for a, b in rest]} vs {[(hex(a), b.hex()[:16]) for a, b in own]}"
         return None
@@ -132,6 +142,10 @@ def gen(tier, rng):
     yield {"recs": [table, ["plain", 0x12002, 2, 0xEE], table], "delta": 0}            # write, poke, restore: the repeated record is applied again
     yield {"recs": [["rle", 0x300, 8, 1], ["rle", 0x302, 2, 2], ["rle", 0x300, 8, 1]], "delta": 0x10}
     yield {"recs": [plain(0x454F00, 4)], "delta": 0x46}                  # lands on 0x454F46 after delta
+    # a record that lands INSIDE a block the program closed before the directive (a table, then a patch poking into it)
+    for d in (-0x200, 0):
+        yield {"recs": [plain(0x202 + (0 if d else -0x200), 2)], "delta": d, "overlay": True, "pre": "*=0x008000\n.db 0x10, 0x11, 0x12, 0x13, 0x14\n*=0x018000\n.db 0x77\n", "post": "after:\n.dw after\n"}
+        yield {"recs": [["rle", 0x201 + (0 if d else -0x200), 3, 0xEE]], "delta": d, "overlay": True, "pre": "*=0x008000\n.db 0x10, 0x11, 0x12, 0x13, 0x14\n*=0x018000\n", "post": ".db 1\n"}
     # the bytes 'E','O','F' are only an end marker where a record OFFSET is expected: inside payloads, size fields, run lengths and values they are data
     for d in (0, 0x200):
         yield {"recs": [["hex", 0x1000, b"EOF".hex()]], "delta": d}
